@@ -56,6 +56,8 @@ func ruleC08(r *Report) {
 	}
 	r.Rule("C08.cipher", "the block ciphers the root package (where the IdP picks the assertion cipher) refers to are ciphers whose Encrypt/Decrypt pair passes the C10 framing and flow obligations on this tree (xmlenc.GCM's encrypter does not: known findings)", 1)
 	safely(r, func() { checkAssertionCipher(r, p, "C08.cipher") })
+	r.Rule("C08.the-certificate", "the certificate the selector hands to the encrypter is the one x509.ParseCertificate made of the selected descriptor's data: every non-nil *x509.Certificate the selector (with its helpers) returns or stores into its result is the first result of crypto/x509.ParseCertificate, not a pick among several parsed certificates or a certificate from elsewhere (the content must open with the SP's own key and no other)", 1)
+	safely(r, func() { checkTheCertificate(r, p, sel, "C08.the-certificate") })
 	r.Rule("C08.current-key", "the encryption certificate is a function of the metadata registered now: the selector and the helpers it is split into read no package-level variable that the library writes at run time (a cache keyed by entity ID keeps encrypting to a key the SP has retired)", 1)
 	checkNoProcessStateFor(r, p, sel, "C08.current-key", "the encryption certificate does not depend on state the library keeps between calls",
 		"the certificate selection consults", "assertions keep being encrypted to the certificate seen first after the SP registered a new one, so the SP's current key cannot open them and the retired key can")
@@ -1283,4 +1285,132 @@ func randomFillHelper(fc *FuncCtx, call *ssa.Call, buf ssa.Value) bool {
 	}
 	ex, ok := Resolve(ret.Results[0]).(*ssa.Extract)
 	return ok && ex.Tuple == ssa.Value(fill) && ex.Index == 1
+}
+
+// checkTheCertificate: see C08.the-certificate.
+func checkTheCertificate(r *Report, p *Prog, sel *ssa.Function, rule string) {
+	isCert := func(t types.Type) bool { return typeIs(t, "crypto/x509", "Certificate") }
+	type cand struct {
+		v  ssa.Value
+		at string
+	}
+	var cands []cand
+	for _, fn := range helperRegion(p, sel, 3) {
+		for _, b := range fn.Blocks {
+			for _, in := range b.Instrs {
+				switch x := in.(type) {
+				case *ssa.Return:
+					if fn != sel {
+						continue // a helper's returns are followed from the selector's values
+					}
+					for _, v := range x.Results {
+						if isCert(v.Type()) {
+							cands = append(cands, cand{v, p.InstrPos(in)})
+						}
+					}
+				case *ssa.Store:
+					if fa, ok := x.Addr.(*ssa.FieldAddr); ok && isCert(x.Val.Type()) && unexportedStruct(derefType(fa.X.Type())) != nil {
+						cands = append(cands, cand{x.Val, p.InstrPos(in)})
+					}
+				case ssa.CallInstruction:
+					// the selection written out in the emitting function: the certificate handed to the encrypter
+					if sc := x.Common().StaticCallee(); sc != nil && !strings.HasPrefix(sc.String(), "crypto/x509.") && (!p.InModule(sc) || sc.Pkg != fn.Pkg) {
+						for _, a := range x.Common().Args {
+							if mi, ok := a.(*ssa.MakeInterface); ok {
+								a = mi.X
+							}
+							if isCert(a.Type()) {
+								cands = append(cands, cand{a, p.InstrPos(in)})
+							}
+						}
+					}
+				}
+			}
+		}
+	}
+	n := 0
+	for _, c := range cands {
+		bad := ""
+		seen := map[ssa.Value]bool{}
+		var walk func(v ssa.Value, depth int)
+		walk = func(v ssa.Value, depth int) {
+			if v == nil || seen[v] || bad != "" {
+				return
+			}
+			seen[v] = true
+			if depth > 4 {
+				bad = "too deep to follow"
+				return
+			}
+			switch x := v.(type) {
+			case *ssa.Const:
+				return
+			case *ssa.Phi:
+				for _, e := range x.Edges {
+					walk(e, depth)
+				}
+			case *ssa.UnOp:
+				if al, ok := x.X.(*ssa.Alloc); ok && x.Op == token.MUL {
+					for _, rf := range *al.Referrers() {
+						if st, ok := rf.(*ssa.Store); ok && st.Addr == ssa.Value(al) {
+							walk(st.Val, depth)
+						}
+					}
+					return
+				}
+				if fa, ok := x.X.(*ssa.FieldAddr); ok && x.Op == token.MUL && unexportedStruct(derefType(fa.X.Type())) != nil {
+					return // a result struct's field: its stores are candidates themselves
+				}
+				bad = "loaded from " + x.X.String() + " (" + x.X.Type().String() + ")"
+			case *ssa.Field:
+				if unexportedStruct(x.X.Type()) != nil {
+					return
+				}
+				bad = "a field of " + x.X.Type().String()
+			case *ssa.Extract:
+				call, ok := x.Tuple.(*ssa.Call)
+				if !ok {
+					bad = "result of " + x.Tuple.String()
+					return
+				}
+				sc := call.Call.StaticCallee()
+				switch {
+				case sc != nil && sc.String() == "crypto/x509.ParseCertificate" && x.Index == 0:
+					n++
+				case sc != nil && p.InModule(sc) && len(sc.Blocks) > 0:
+					for _, ret := range returnsOf(sc) {
+						if x.Index < len(ret.Results) {
+							walk(ret.Results[x.Index], depth+1)
+						}
+					}
+				default:
+					bad = "result of " + call.Call.Value.String()
+				}
+			case *ssa.Call:
+				sc := x.Call.StaticCallee()
+				if sc != nil && p.InModule(sc) && len(sc.Blocks) > 0 {
+					for _, ret := range returnsOf(sc) {
+						if len(ret.Results) == 1 {
+							walk(ret.Results[0], depth+1)
+						}
+					}
+					return
+				}
+				bad = "result of " + x.Call.Value.String()
+			case *ssa.Parameter:
+				// a helper's parameter: judged at the selector's own values
+				if x.Parent() != sel {
+					return
+				}
+				bad = "a parameter of the selector"
+			default:
+				bad = fmt.Sprintf("%s (%T)", v.String(), v)
+			}
+		}
+		walk(c.v, 0)
+		r.Check(bad == "", rule, fmt.Sprintf("%s: certificate value at %s", p.FnName(sel), c.at), c.at, "the first result of x509.ParseCertificate", "the certificate is "+bad+", not the one certificate x509.ParseCertificate made of the selected descriptor's data: the assertion can be encrypted to a key other than the SP's own")
+	}
+	if n == 0 {
+		r.Undecided(rule, p.FnName(sel)+": certificate values", p.Pos(sel.Pos()), "no certificate value of the selector resolves to x509.ParseCertificate")
+	}
 }
